@@ -525,7 +525,17 @@ def boundary_cases(failures, live, g, rng, per_failure=12):
         kind, cid = f[0], f[1] if len(f) > 1 else None
         if cid not in g.classes:
             continue
-        bases = (accepted.get(cid, []) + [o for c2, o in cand if c2 == cid])[:3]
+        # accepted bases first, of different shapes first (a 2.0 marking-definition base may be one of the four fixed
+        # TLP instances, which refuse any other `created`)
+        groups = {}
+        for o in accepted.get(cid, []):
+            groups.setdefault((tuple(sorted(o)), str(o.get("definition_type"))), []).append(o)
+        ordered = []
+        while any(groups.values()):
+            for k in list(groups):
+                if groups[k]:
+                    ordered.append(groups[k].pop(0))
+        bases = (ordered + [o for c2, o in cand if c2 == cid])[:3]
         label = "|".join(f)
         routes = ["parse", "construct"] if sc.is_toplevel(g, cid) else ["construct"]
 
